@@ -9,14 +9,27 @@ def showOut : Out → List String
   | .err e => showErr e
   | .bulkErr d => "!BulkWriteError" :: showVal d
 
+/-- like `MongoModel.run`, but an operation wrapped as `["noobs", op]` is not followed by the
+    harness's observation (`find({})`), so that sequences such as "clock moves, then insert" reach
+    the code with the expired documents still in the store -/
+def runQ (cfg : Cfg) : St → List Val → List (Out × Option Val)
+  | _, [] => []
+  | s, .arr [.str "noobs", op] :: rest =>
+    let (s1, out) := step cfg s op
+    (out, none) :: runQ cfg s1 rest
+  | s, op :: rest =>
+    let (s1, out) := step cfg s op
+    let (s2, obs) := observe s1
+    (out, some obs) :: runQ cfg s2 rest
+
 /-- `hist <T|F: server before 5.0> <[op, …]>` → for every step `<out> <observation> ;` -/
 def handleHist (ts : List String) : Option (List String) :=
   match ts with
   | "hist" :: pre :: r =>
     match parseVal r with
     | some (.arr ops, []) =>
-      let (res, _) := run { preV5 := pre == "T" } ops
-      some (res.flatMap (fun p => showOut p.1 ++ showVal p.2 ++ [";"]))
+      let res := runQ { preV5 := pre == "T" } {} ops
+      some (res.flatMap (fun p => showOut p.1 ++ showOpt p.2 ++ [";"]))
     | _ => some ["?parse"]
   | _ => none
 
